@@ -85,7 +85,7 @@ def make_data(desc):
       if k >= target:
         break
       if counts[D.y[i]] > keep_min:
-        D.y_partial[i] = -1
+        D.y_partial[i] = int(ru.choice(desc.get("neg_values", [-1])))
         counts[D.y[i]] -= 1
         k += 1
   # regression targets
